@@ -23,8 +23,7 @@ TRUSTED = ["ghost allocation ledger of LhasaV.Model.Reader (header objects with 
            "tied to the C by comparing the number of live heap blocks after lha_reader_free + lha_input_stream_free on every history",
            "harness/ops_reader.c: link-time --wrap of malloc/calloc/realloc/free/strdup counts live blocks and injects failures"]
 ASSUMPTIONS = ["at most one decode operation per member and one extract per entry (the property's quantifier)",
-               "file handles: the one handle the library opens itself (the output file, lha_arch_fopen) is a cookie stream of the harness whose close is observed; the input FILE is the caller's",
-               "file handles: the harness supplies the FILE / callbacks, the library opens none itself in these runs"]
+               "file handles: the one handle the library opens itself (the output file, lha_arch_fopen) is a cookie stream of the harness whose close is observed; the input FILE is the caller's"]
 RULE = ("legal call histories (next / read k / check / extract with scripted file-system outcome) over corpus, mutated and structured "
         "archives incl. nested directories and dangerous symlinks, cut at every prefix (the reader is abandoned there), four stream kinds, "
         "three directory policies; then the same histories with the k-th library allocation failing (k sampled in the quick tier, all k in "
